@@ -923,7 +923,7 @@ func genC25(g *Gen, idx int) *Plan {
 func init() {
 	Register(&Check{ID: "C06", Level: "exploration",
 		Rule:   "gateway side: a raw peer's PUBLISH QoS 1/2 or SUBSCRIBE with id m is held open by a slow broker while the broker starts PUBLISH QoS 1/2 (with and without REGISTER step) with the same id m (incl. 0xFFFF/0xFFFE, the ids the gateway itself picks for the REGISTER before a QoS 0 publish, with such publishes in flight), or the peer reuses the id of its QoS 1 PUBLISH the moment the PUBACK is in (reactive peer), or the collision happens around a sleep (request, DISCONNECT(d), the broker's packet and then the reply queued, first copy after the wake-up lost), or the peer retransmits its QoS 1 PUBLISH before the gateway gave up on the first copy and the broker's PUBACK comes within the second exchange's time only (superseded exchange); client side: Publish QoS 1/2, Register or Subscribe of the real client (id 2) is held open by a delayed acknowledgement while the scripted gateway starts PUBLISH QoS 1/2 or REGISTER with id 2; both exchanges must complete; non-trivial = two exchanges with equal id overlapping in time",
-		Gen:    genC06, Oracle: oracleC06, Quick: 600, Thorough: 40000})
+		Gen:    genC06, Oracle: oracleC06, Quick: 2000, Thorough: 160000})
 	Register(&Check{ID: "C15", Level: "exploration",
 		Rule:   "2-4 concurrent raw peers with independent keyed workloads, credentials, registrations, malformed packets and deaths; structural oracle (one broker connection per session, no tagged payload/client id/credential of peer i on peer j's links) in every run; differential oracle in every second run (yield density 0): each peer's per-channel trace alone must equal its trace next to the others (two solo executions must agree, else the comparison is void); non-trivial = >= 2 peers",
 		Gen:    genC15, Oracle: oracleC15, Quick: 400, Thorough: 20000,
